@@ -50,7 +50,14 @@ pub fn on_fresh_thread_seeded<T: Send, F: FnOnce() -> T + Send>(seed: u64, f: F)
     })
 }
 
-/// Run `f` on a fresh OS thread (fresh `RandomState` keys from seed 0) and return its result.
+/// The run's base hash seed: VERIF_SEED (default 0).  Enumerations are complete whatever the
+/// seed; it only selects which HashMap/DashMap iteration orders the subject runs under.
+pub fn base_seed() -> u64 {
+    static BASE: std::sync::OnceLock<u64> = std::sync::OnceLock::new();
+    *BASE.get_or_init(|| std::env::var("VERIF_SEED").ok().and_then(|s| s.parse().ok()).unwrap_or(0))
+}
+
+/// Run `f` on a fresh OS thread (fresh `RandomState` keys from the base seed) and return its result.
 pub fn on_fresh_thread<T: Send, F: FnOnce() -> T + Send>(f: F) -> T {
-    on_fresh_thread_seeded(0, f)
+    on_fresh_thread_seeded(base_seed(), f)
 }
